@@ -71,43 +71,43 @@ impl Dictionary {
     /// Parses an existing dictionary file.
     pub fn from_existing(buffer: ByteSpan) -> Option<Dictionary> {
         let mut cursor = Cursor::new(buffer);
-        let mut dict = DictionaryHeader::read(&mut cursor).unwrap();
+        let mut dict = DictionaryHeader::read(&mut cursor).ok()?;
 
         let map_start = 0x8750u32;
         let map_size = 0x200u32;
 
         // fix up offsets
         for offset in &mut dict.block_offsets {
-            *offset = *offset + map_start + map_size;
+            *offset = offset.checked_add(map_start + map_size)?;
         }
 
         for i in 0..dict.block_lengths[0] / 2 {
-            let offset = dict.block_offsets[0] + i * 2;
-            cursor.seek(SeekFrom::Start(offset as u64)).ok()?;
+            let offset = dict.block_offsets[0] as u64 + i as u64 * 2;
+            cursor.seek(SeekFrom::Start(offset)).ok()?;
             dict.begin_node.push(cursor.read_le::<u16>().ok()?);
         }
 
         for i in 0..dict.block_lengths[1] / 2 {
-            let offset = dict.block_offsets[1] + i * 2;
-            cursor.seek(SeekFrom::Start(offset as u64)).ok()?;
+            let offset = dict.block_offsets[1] as u64 + i as u64 * 2;
+            cursor.seek(SeekFrom::Start(offset)).ok()?;
             dict.inner_node.push(cursor.read_le::<u16>().ok()?);
         }
 
         for i in 0..dict.block_lengths[2] / 2 {
-            let offset = dict.block_offsets[2] + i * 2;
-            cursor.seek(SeekFrom::Start(offset as u64)).ok()?;
+            let offset = dict.block_offsets[2] as u64 + i as u64 * 2;
+            cursor.seek(SeekFrom::Start(offset)).ok()?;
             dict.chara.push(cursor.read_le::<u16>().ok()?);
         }
 
         for i in 0..dict.block_lengths[3] / 2 {
-            let offset = dict.block_offsets[3] + i * 2;
-            cursor.seek(SeekFrom::Start(offset as u64)).ok()?;
+            let offset = dict.block_offsets[3] as u64 + i as u64 * 2;
+            cursor.seek(SeekFrom::Start(offset)).ok()?;
             dict.word.push(cursor.read_le::<u16>().ok()?);
         }
 
         for i in 0..dict.block_lengths[4] / 16 {
-            let offset = dict.block_offsets[4] + i * 16;
-            cursor.seek(SeekFrom::Start(offset as u64)).ok()?;
+            let offset = dict.block_offsets[4] as u64 + i as u64 * 16;
+            cursor.seek(SeekFrom::Start(offset)).ok()?;
             dict.entries.push(cursor.read_le::<EntryItem>().ok()?);
         }
 
